@@ -92,6 +92,7 @@ type Frame struct {
 	catch    bool // vrt.Panics boundary
 	barrier  bool // nested-run boundary
 	visited  map[*ssa.BasicBlock]int
+	visitDec map[*ssa.BasicBlock]int
 }
 
 type goPanicSig struct {
@@ -136,6 +137,7 @@ type Machine struct {
 	// BMC extraction
 	procMode bool
 	stopped  bool
+	symDecisions int
 	cut      bool
 	overlay  map[*Object]Value
 	symHeap  map[*Object]Value
@@ -154,8 +156,12 @@ type Machine struct {
 
 	choiceLog map[string]string // name#n -> value (for replay files)
 	onNontrivial func()
+	choiceSeq    [][2]string
 	constCache   map[*ssa.Const]Value
 	arenaLoadFn  func(*PtrV) Value
+	chanLenFn    func(*Chan) Value
+	touched      []*Chan
+	arenaAllocFn func(types.Type, *Frame) Value
 	arenaStoreFn func(*PtrV, Value)
 	fuel      int
 
@@ -259,6 +265,7 @@ func (m *Machine) branch(c *term.T, what string) bool {
 	if c.IsConst() {
 		return c.V == 1
 	}
+	m.symDecisions++
 	if v, ok := m.known[c.ID]; ok {
 		return v
 	}
@@ -515,9 +522,15 @@ func (m *Machine) jump(fr *Frame, to *ssa.BasicBlock) {
 			fr.visited = map[*ssa.BasicBlock]int{}
 		}
 		fr.visited[to]++
-		if fr.visited[to] > 1 {
-			m.cut = true // a local loop without a visible operation: silent cut-point
+		if fr.visitDec == nil {
+			fr.visitDec = map[*ssa.BasicBlock]int{}
 		}
+		// a local loop without a visible operation gets a silent cut-point, but only
+		// if its iterations depend on symbolic decisions (concrete loops just run)
+		if fr.visited[to] > 1 && (m.symDecisions > fr.visitDec[to] || fr.visited[to] > 200) {
+			m.cut = true
+		}
+		fr.visitDec[to] = m.symDecisions
 	}
 	// phis
 	var pidx int = -1
@@ -575,6 +588,10 @@ func (m *Machine) step() {
 		var o *Object
 		if m.procMode && m.bmcHooks != nil {
 			o = m.bmcHooks.alloc(m, fr, in, et)
+			if o == nil { // arena allocation
+				fr.regs[in] = m.arenaAllocFn(et, fr)
+				break
+			}
 		} else {
 			o = m.newObject(et, m.zero(et), in.Comment)
 		}
